@@ -907,13 +907,17 @@ class BaseOutlineCompiler:
         vorg.majorVersion = 1
         vorg.minorVersion = 0
         vorg.VOriginRecords = {}
-        # Find the most frequent verticalOrigin
+        # Find the most frequent verticalOrigin; count in glyph order so that a tie
+        # is not decided by the iteration order of the glyph set (which for defcon
+        # layers depends on the interpreter's hash seed)
         vorg_count = Counter(
-            _getVerticalOrigin(self.otf, glyph) for glyph in self.allGlyphs.values()
+            _getVerticalOrigin(self.otf, self.allGlyphs[glyphName])
+            for glyphName in self.glyphOrder
         )
         vorg.defaultVertOriginY = vorg_count.most_common(1)[0][0]
         if len(vorg_count) > 1:
-            for glyphName, glyph in self.allGlyphs.items():
+            for glyphName in self.glyphOrder:
+                glyph = self.allGlyphs[glyphName]
                 vertOriginY = _getVerticalOrigin(self.otf, glyph)
                 if vertOriginY == vorg.defaultVertOriginY:
                     continue
